@@ -139,6 +139,137 @@ def native_dqn_grad_replay(entry):
     return replay
 
 
+# ---- call sites: the training entry points hand the RIGHT networks to the loss functions ----------------------------------------
+
+def native_sac_iteration_replay(model):
+    """R1: SAC.iteration natively on a real state (Pendulum, real networks): moving the TARGET critics changes the critic update, moving nothing else of the kind does;
+    and the update equals the one sac_train computes from (qf1, qf2, qf1_target, qf2_target) of the state."""
+    from contracts import _native as N
+    from lerax.algorithm.sac import SACState
+    from lerax.callback import EmptyCallback
+    from lerax.env.classic_control import Pendulum
+    from lerax.policy import MLPSACPolicy
+    env = Pendulum()
+    algo = SAC(buffer_size=16, learning_starts=4, num_envs=1, num_steps=1, batch_size=4, q_width_size=8, q_depth=1)
+    pol = MLPSACPolicy(env, feature_size=8, width_size=8, depth=1, key=jax.random.key(0))
+    try:
+        cb = EmptyCallback()
+    except Exception:
+        from lvc.generic import SimpleCallback
+        cb = SimpleCallback("cb")
+    st = algo.reset(env, pol, key=jax.random.key(1), callback=cb)
+    # make the four critics pairwise different (reset aliases targets to the online critics)
+    bump = lambda q, d: jax.tree.map(lambda x: x + d if eqx.is_inexact_array(x) else x, q)
+    st = eqx.tree_at(lambda s: (s.qf1_target, s.qf2_target), st, (bump(st.qf1, 0.05), bump(st.qf2, -0.07)))
+    key = jax.random.key(2)
+    out = algo.iteration(st, key=key, callback=cb)
+    # reference: the same iteration with sac_train REPLACED by a wrapper that calls the real sac_train with the state's own fields in the documented order
+    real = SAC.sac_train
+
+    def from_state(self, policy, opt_state, buffer, qf1, qf2, qf1_target, qf2_target, q_opt_state, log_alpha, alpha_opt_state, target_entropy, iteration_count, *, key):
+        return real(self, st.policy, st.opt_state, buffer, st.qf1, st.qf2, st.qf1_target, st.qf2_target, st.q_opt_state, st.log_alpha, st.alpha_opt_state, st.target_entropy, st.iteration_count, key=key)
+    with extract.patched((SAC, "sac_train", from_state)):
+        exp = algo.iteration(st, key=key, callback=cb)
+    d = max(N.max_abs_diff(out.qf1, exp.qf1), N.max_abs_diff(out.qf2, exp.qf2), N.max_abs_diff(out.policy, exp.policy), N.max_abs_diff(out.q_opt_state, exp.q_opt_state))
+    if d > 1e-7:
+        return dict(reproduced=True, route="R1 (real SAC.iteration on Pendulum with pairwise different critics vs the same iteration with sac_train fed the state's fields in the documented order)",
+                    inputs=dict(env="Pendulum", batch_size=4, target_offsets=[0.05, -0.07], key=2), observed=dict(max_abs_difference_of_updated_networks=d))
+    return dict(reproduced=False, note="SAC.iteration's update equals the update from the state's (qf1, qf2, qf1_target, qf2_target)")
+
+
+def unit_call_sites(S):
+    """SAC.iteration / DQN.iteration: the networks handed to sac_train / dqn_train are the state's online and TARGET networks in the documented positions
+    (caller checked against the callee's contract: the callee's TD target is built from its `*_target` parameters)."""
+    from lerax.algorithm.sac import SACState
+    from lerax.algorithm.off_policy import AbstractOffPolicyAlgorithm, AbstractOffPolicyStepState
+    from lerax.algorithm.on_policy import AbstractOnPolicyState, AbstractOnPolicyStepState
+    from lerax.algorithm.dqn import DQNState
+    from lvc.generic import GenericEnv, GState, GCbStep, GCbState, SimpleCallback
+    fn = "lerax.algorithm.sac:SAC.iteration"
+    S.under_contract(fn, "lerax.algorithm.dqn:DQN.iteration")
+    ctx = Ctx()
+    A = Box(-jnp.ones((2,)), jnp.ones((2,)))
+    env0 = GenericEnv(A, observation_space=OBS)
+    pol0 = GenericSACPolicy(A, OBS)
+    mkq = lambda k: SACM.SoftQNetwork(2, 2, width_size=2, depth=1, key=jax.random.key(k))
+    base = jax.eval_shape(lambda c, x, h, cbst, th, o, cs: AbstractOnPolicyState(c, AbstractOnPolicyStepState(GState(x), GPState(h), GCbStep(cbst)), env0, eqx.tree_at(lambda p: p.theta, pol0, th), o, GCbState(cs)),
+                          sd((), jnp.int32), sd((2,), f32), sd((1,), f32), sd((1,), f32), sd((2,), f32), sd((3,), f32), sd((1,), f32))
+    b = sym(ctx, "st", base)
+    qs = [sym(ctx, n, mkq(i)) for i, n in enumerate(("qf1", "qf2", "qf1T", "qf2T"))]
+    qo, ao = sym(ctx, "q_opt", sd((3,), f32)), sym(ctx, "a_opt", sd((3,), f32))
+    la, te = kit.real_scalar("log_alpha")[0], kit.real_scalar("target_entropy")[0]
+    st = SACState(b.iteration_count, b.step_state, b.env, b.policy, b.opt_state, b.callback_state, qf1=qs[0], qf2=qs[1], qf1_target=qs[2], qf2_target=qs[3], q_opt_state=qo, log_alpha=la,
+                  alpha_opt_state=ao, target_entropy=te)
+    algo = SAC(num_envs=1, buffer_size=8, learning_starts=1, batch_size=1)
+    seen = {}
+
+    class _SS(eqx.Module):
+        env_state: GState
+        policy_state: GPState
+        callback_state: GCbStep
+        buffer: jax.Array
+    ss_struct = jax.tree.map(lambda x: sd(x.shape, x.dtype), base.step_state)
+
+    def collect_stub(self, env_, policy_, step_state, callback, key):
+        ns = ocall("COLLECT#", ss_struct, step_state, key)
+        return _SS(ns.env_state, ns.policy_state, ns.callback_state, ocall("COLLECT.buffer#", sd((1,), f32), step_state, key))
+
+    def train_stub(self, policy, opt_state, buffer, qf1, qf2, qf1_target, qf2_target, q_opt_state, log_alpha, alpha_opt_state, target_entropy, iteration_count, *, key):
+        seen.update(policy=policy, opt_state=opt_state, buffer=buffer, qf1=qf1, qf2=qf2, qf1_target=qf1_target, qf2_target=qf2_target, q_opt_state=q_opt_state, log_alpha=log_alpha,
+                    alpha_opt_state=alpha_opt_state, target_entropy=target_entropy, iteration_count=iteration_count, key=key)
+        return policy, opt_state, qf1, qf2, q_opt_state, log_alpha, alpha_opt_state, {"q_loss": jnp.asarray(0.0)}
+    k, kc = kit.key_input("key")
+    with extract.patched((SAC, "sac_train", train_stub), (AbstractOffPolicyAlgorithm, "collect_rollout", collect_stub)):
+        out = run(ctx, lambda a, s, kk: a.iteration(s, key=kk, callback=SimpleCallback()), algo, st, k)
+    S.fact("SAC.iteration/calls-sac_train-once", bool(seen), function=fn, what="one training update per iteration", replay=native_sac_iteration_replay)
+    if seen:
+        # `seen` holds tracers of the extraction; re-run with the stub RETURNING what it received so that the arguments become outputs of the extracted program
+        def echo_stub(self, policy, opt_state, buffer, qf1, qf2, qf1_target, qf2_target, q_opt_state, log_alpha, alpha_opt_state, target_entropy, iteration_count, *, key):
+            tag = ocall("ARGS#", sd((), f32), [l for l in jax.tree.leaves((policy.theta, opt_state, qf1, qf2, q_opt_state, log_alpha, alpha_opt_state, target_entropy, iteration_count)) if eqx.is_array(l)])
+            return policy, opt_state, qf1_target, qf2_target, q_opt_state, log_alpha + tag, alpha_opt_state, {"q_loss": jnp.asarray(0.0)}
+        ctx2 = Ctx()
+        b2 = sym(ctx2, "st", base)
+        qs2 = [sym(ctx2, n, mkq(i)) for i, n in enumerate(("qf1", "qf2", "qf1T", "qf2T"))]
+        la2, te2 = kit.real_scalar("log_alpha")[0], kit.real_scalar("target_entropy")[0]
+        st2 = SACState(b2.iteration_count, b2.step_state, b2.env, b2.policy, b2.opt_state, b2.callback_state, qf1=qs2[0], qf2=qs2[1], qf1_target=qs2[2], qf2_target=qs2[3],
+                       q_opt_state=sym(ctx2, "q_opt", sd((3,), f32)), log_alpha=la2, alpha_opt_state=sym(ctx2, "a_opt", sd((3,), f32)), target_entropy=te2)
+        algo0 = eqx.tree_at(lambda a: a.tau, algo, 0.0)   # per_iteration then leaves the targets alone: the echoed values are observable on the outputs
+        with extract.patched((SAC, "sac_train", echo_stub), (AbstractOffPolicyAlgorithm, "collect_rollout", collect_stub)):
+            out2 = run(ctx2, lambda a, s, kk: a.iteration(s, key=kk, callback=SimpleCallback()), algo0, st2, k)
+        # out2.qf1 / out2.qf2 are what sac_train RECEIVED as qf1_target / qf2_target
+        S.prove("SAC.iteration/target-critics-passed-as-targets", ctx2, sand(kit.tree_eq(out2.qf1, qs2[2]), kit.tree_eq(out2.qf2, qs2[3])), function=fn, replay=native_sac_iteration_replay,
+                what="sac_train receives state.qf1_target and state.qf2_target in its qf1_target / qf2_target positions: the TD target is built from the TARGET critics (never the online ones)")
+        args = [c_ for c_ in ctx2.calls if c_.name == "ARGS#"]
+        S.fact("SAC.iteration/one-ARGS-record", len(args) == 1, function=fn, what="the stub was entered once")
+        if len(args) == 1:
+            exp = [l for l in jax.tree.leaves((st2.policy.theta, st2.opt_state, qs2[0], qs2[1], st2.q_opt_state, st2.log_alpha, st2.alpha_opt_state, st2.target_entropy, st2.iteration_count), is_leaf=kit.is_sarr) if kit.is_sarr(l)]
+            goal = sand(*[kit.tree_eq(a_, e_) for a_, e_ in zip(args[0].operands, exp)]) if len(args[0].operands) == len(exp) else z3.BoolVal(False)
+            S.prove("SAC.iteration/online-networks-and-optimiser-states-passed-in-place", ctx2, goal, function=fn, replay=native_sac_iteration_replay,
+                    what="policy, actor optimiser state, online critics, critic optimiser state, temperature, its optimiser state, target entropy and the iteration count reach sac_train in their own positions")
+
+    # DQN.iteration -> dqn_train
+    ctx3 = Ctx()
+    envd = GenericEnv(Discrete(3), observation_space=OBS)
+    pold = GenericQPolicy(Discrete(3), OBS)
+    mkd = lambda c_, x, h, cbst, th, o, cs, tth: DQNState(c_, AbstractOnPolicyStepState(GState(x), GPState(h), GCbStep(cbst)), envd, eqx.tree_at(lambda p: p.theta, pold, th), o, GCbState(cs),
+                                                          target_policy=eqx.tree_at(lambda p: p.theta, pold, tth))
+    std = sym(ctx3, "st", jax.eval_shape(mkd, sd((), jnp.int32), sd((2,), f32), sd((1,), f32), sd((1,), f32), sd((2,), f32), sd((3,), f32), sd((1,), f32), sd((2,), f32)))
+    ssd = jax.tree.map(lambda x: sd(x.shape, x.dtype), jax.eval_shape(mkd, sd((), jnp.int32), sd((2,), f32), sd((1,), f32), sd((1,), f32), sd((2,), f32), sd((3,), f32), sd((1,), f32), sd((2,), f32)).step_state)
+
+    def collect_d(self, env_, policy_, step_state, callback, key):
+        ns = ocall("COLLECT#", ssd, step_state, key)
+        return _SS(ns.env_state, ns.policy_state, ns.callback_state, ocall("COLLECT.buffer#", sd((1,), f32), step_state, key))
+
+    def train_d(self, policy_, opt_state, buffer, target_policy, *, key):
+        return eqx.tree_at(lambda p: p.theta, policy_, target_policy.theta), opt_state + policy_.theta[0], {"loss": jnp.asarray(0.0)}
+    algod = DQN(num_envs=1, buffer_size=8, learning_starts=1, batch_size=1, target_update_interval=1_000_000)
+    with extract.patched((DQN, "dqn_train", train_d), (AbstractOffPolicyAlgorithm, "collect_rollout", collect_d)):
+        outd = run(ctx3, lambda a, s, kk: a.iteration(s, key=kk, callback=SimpleCallback()), algod, std, k)
+    S.prove("DQN.iteration/target-network-passed-as-target", ctx3, sand(kit.tree_eq(outd.policy.theta, std.target_policy.theta),
+                                                                         *[ir.seq(outd.opt_state.at((i,)), ir.zreal(std.opt_state.at((i,))) + ir.zreal(std.policy.theta.at((0,)))) for i in range(3)]),
+            function="lerax.algorithm.dqn:DQN.iteration", what="dqn_train receives state.target_policy as the target network and state.policy as the online network")
+
+
 def _dqn_setup(ctx):
     (B,) = symbolic_dims("B")
     pol = sym(ctx, "q", GenericQPolicy(Discrete(3), OBS, tag="q"))
@@ -391,6 +522,6 @@ def unit_sac(autotune, Bc=3):
 from lvc.kit import uf_names_of  # noqa: E402
 
 
-UNITS = [("dqn-loss", unit_dqn_loss), ("dqn-grad", unit_dqn_grad), ("sac:autotune", unit_sac(True)), ("sac:fixed-alpha", unit_sac(False)),
+UNITS = [("dqn-loss", unit_dqn_loss), ("dqn-grad", unit_dqn_grad), ("call-sites", unit_call_sites), ("sac:autotune", unit_sac(True)), ("sac:fixed-alpha", unit_sac(False)),
          ("sac:autotune:B2", unit_sac(True, 2)), ("sac:fixed-alpha:B4", unit_sac(False, 4))]
 THOROUGH_ONLY = {"sac:autotune:B2", "sac:fixed-alpha:B4"}
